@@ -42,6 +42,15 @@ class Program:
                 "inputs": self.inputs, "outputs": self.outputs}
 
 
+def _traced_iadd(a: Any, b: Any) -> Any:
+    """`a += b`; kept as one call under plain FX tracing (a Proxy has no `__iadd__`, tracing would record an
+    out-of-place add) and turned into an `operator.iadd` node by `trace_fx`."""
+    return operator.iadd(a, b)
+
+
+torch.fx.wrap("_traced_iadd")
+
+
 class FnTable:
     """The functions an `IRModule` calls; replace entries to build reference executions."""
 
@@ -59,7 +68,7 @@ class FnTable:
         self.cross_entropy = F.cross_entropy
         self.mse_loss = F.mse_loss
         self.add = operator.add
-        self.iadd = operator.iadd
+        self.iadd = _traced_iadd
         self.tanh = torch.tanh
         self.relu = F.relu
         # reference executions run torch.nn wrappers through the table's functional forms
@@ -350,7 +359,9 @@ def gen_program(rng: random.Random, n_ops: int, *, residuals: int = 2, wrappers:
         outputs = [i if i < n_in else i + shift for i in outputs]
     if multi_out and len(ops) > 2:
         extra = len(inputs) + rng.randrange(len(ops) - 1)
-        if extra not in outputs:
+        # never return a tensor that a later op modifies in place
+        inplace_targets = {o.ins[0] for o in ops if o.kind == "iadd"}
+        if extra not in outputs and extra not in inplace_targets:
             outputs.append(extra)
     return Program(ops, inputs, outputs, params, modules)
 
@@ -368,6 +379,29 @@ class IRModule2(IRModule):
 def make_module(prog: Program, table: Optional[FnTable] = None, seed: int = 0) -> IRModule:
     """fixed-arity module (FX symbolic tracing cannot trace *args)"""
     return {1: IRModule1, 2: IRModule2}[len(prog.inputs)](prog, table, seed)
+
+
+def program_from_key(key: Dict[str, Any]) -> Program:
+    """rebuild a Program from `Program.key()` (parameter / module tables are inferred from the op records)"""
+    ops = [Op(k, list(i), dict(p)) for k, i, p in key["ops"]]
+    params: Dict[str, Tuple[int, ...]] = {}
+    modules: Dict[str, Tuple[str, Tuple]] = {}
+    for o in ops:
+        for kk, val in o.p.items():
+            if kk in ("w", "b", "mask") and isinstance(val, str):
+                if val.startswith(("emb", "pos")):
+                    params[val] = (VOCAB, H)
+                elif val.startswith("mask"):
+                    params[val] = (S, S)
+                elif val.startswith("w") and o.kind == "conv1d":
+                    params[val] = (H, H, 3)
+                elif val.startswith("w"):
+                    params[val] = (H, H)
+                else:
+                    params[val] = (H,)
+        if o.kind == "nn":
+            modules[o.p["m"]] = (o.p["cls"], {"Linear": (H, H), "LayerNorm": (H,), "GELU": (), "Softmax": (-1,)}[o.p["cls"]])
+    return Program(ops, list(key["inputs"]), list(key["outputs"]), params, modules)
 
 
 def make_inputs(prog: Program, seed: int, dtype: torch.dtype = torch.float32) -> List[torch.Tensor]:
@@ -395,6 +429,8 @@ def trace_fx(mod: nn.Module) -> torch.fx.GraphModule:
     for n in graph.nodes:
         if n.op == "call_function" and n.target is F.mse_loss and n.kwargs.get("weight", 0) is None:
             n.kwargs = {k: v for k, v in n.kwargs.items() if k != "weight"}
+        if n.op == "call_function" and n.target is _traced_iadd:
+            n.target = operator.iadd
     return torch.fx.GraphModule(mod, graph)
 
 
